@@ -1433,7 +1433,10 @@ impl<'a> Parser<'a> {
         // bounded by MAX_LOOKAHEAD (a long first element would turn a tuple into a
         // parenthesised expression) and skips nested blocks, records and arrays, whose
         // commas do not belong to this parenthesis.
+        // The commas of a lambda's parameter list (`(|a, b| a + b)`) do not make a tuple
+        // either.
         let mut depth = 0;
+        let mut in_lambda_params = false;
         for i in 1.. {
             match self.peek_ahead(i) {
                 Some(TokenKind::ParenBegin | TokenKind::BlockBegin | TokenKind::ArrayBegin) => {
@@ -1445,7 +1448,10 @@ impl<'a> Parser<'a> {
                     }
                     depth -= 1;
                 }
-                Some(TokenKind::Comma) if depth == 0 => return true,
+                Some(TokenKind::LambdaArgBeginEnd) if depth == 0 => {
+                    in_lambda_params = !in_lambda_params
+                }
+                Some(TokenKind::Comma) if depth == 0 && !in_lambda_params => return true,
                 None => return false,
                 _ => {}
             }
